@@ -5,7 +5,7 @@ open Pox Pox.Proto Pox.Packet Pox.Actions
 
 /-! Line-protocol driver for C12.
 
-  {"var":{"d7":b,"d8":b,"c121":b}, "ports":[{"no":n,"hw":hex,"config":n,"state":n},…], "ops":[op,…]}
+  {"var":{"d7":b,"d8":b,"c121":b,"c122":b}, "ports":[{"no":n,"hw":hex,"config":n,"state":n},…], "ops":[op,…]}
     op = {"op":"portmod","port":n,"hw":hex,"config":n,"mask":n} | {"op":"setconfig","flags":n,"miss":n}
        | {"op":"flow","in_port":n|null,"acts":[act,…]} | {"op":"pktout","in_port":n,"acts":[act,…],"data":hex}
        | {"op":"rx","port":n,"data":hex[,"nopd":true]} | {"op":"link","port":n,"down":b}
@@ -94,7 +94,8 @@ def loop (var : Variant) : Sw → List Op → List J → List J → Sw × List J
 
 def handle (j : J) : Except String J := do
   let vj ← j.get "var"
-  let var : Variant := { d7 := ← vj.boolean "d7", d8 := ← vj.boolean "d8", c121 := ← vj.boolean "c121" }
+  let var : Variant := { d7 := ← vj.boolean "d7", d8 := ← vj.boolean "d8", c121 := ← vj.boolean "c121",
+                          c122 := match vj.get? "c122" with | some (.bool b) => b | _ => false }
   let ports ← (← j.array "ports").mapM fun p => do
     pure ({ no := ← p.nat "no", hw := ← p.bytes "hw", config := ← p.nat "config", state := ← p.nat "state" } : Port)
   let ops ← (← j.array "ops").mapM opOfJ
